@@ -21,6 +21,7 @@ type tcpTransport struct {
 	conn          net.Conn
 	ctxConn       *ctxConn
 	encoder       *json.Encoder
+	sent          *countingWriter
 	decoder       *json.Decoder
 	limitedReader io.LimitedReader
 	encryption    SessionEncryption
@@ -146,14 +147,33 @@ func (t *tcpTransport) Send(ctx context.Context, e envelope) error {
 
 	t.ctxConn.SetWriteContext(ctx)
 
+	t.sent.n = 0
 	if err := t.encoder.Encode(e); err != nil {
 		if errors.Is(err, io.EOF) {
 			t.eof = true
+		}
+		if t.sent.n == 0 {
+			// Nothing of the envelope reached the connection (for instance, the context was done
+			// before the write), so the stream is intact and the next envelopes can still be sent.
+			// The encoder would keep returning this error, so it is replaced.
+			t.encoder = json.NewEncoder(t.sent)
 		}
 		return fmt.Errorf("tcp transport: send: %w", err)
 	}
 
 	return nil
+}
+
+// countingWriter counts the bytes that were written by the current send operation.
+type countingWriter struct {
+	w io.Writer
+	n int
+}
+
+func (c *countingWriter) Write(b []byte) (int, error) {
+	n, err := c.w.Write(b)
+	c.n += n
+	return n, err
 }
 
 func (t *tcpTransport) Receive(ctx context.Context) (envelope, error) {
@@ -267,7 +287,8 @@ func (t *tcpTransport) setConn(conn net.Conn) {
 	}
 
 	// Sets the encoder to be used for sending envelopes
-	t.encoder = json.NewEncoder(writer)
+	t.sent = &countingWriter{w: writer}
+	t.encoder = json.NewEncoder(t.sent)
 
 	if t.ReadLimit == 0 {
 		t.ReadLimit = DefaultReadLimit
